@@ -810,13 +810,15 @@ static void offsets_str(const struct tsl_rec *o, char *buf, size_t n)
 /* returns false when the unit sequences differ in octets (case abandoned by
  * the caller); the other categories are reported once each and do not stop
  * the comparison */
-static void compare_sinks(const char *codec, struct tsl_sink *a, const char *na, struct tsl_sink *b, const char *nb, size_t n)
+static unsigned cmp_reported;   /* categories already reported in this case */
+
+static void compare_sinks(const char *codec, bool conformant, struct tsl_sink *a, const char *na, struct tsl_sink *b, const char *nb, size_t n)
 {
     char key[80];
-#define KEY(x) (snprintf(key, sizeof(key), "c17:%s:cutting-dependent:%s", codec, x), key)
+#define KEY(x) (snprintf(key, sizeof(key), "c17:%s:%scutting-dependent:%s", codec, conformant ? "" : "malformed-stream:", x), key)
     if (a->n != b->n)
         vh_violation(KEY("octets"), "%zu access units with cutting '%s' but %zu with cutting '%s' (stream of %zu octets)", a->n, na, b->n, nb, n);
-    bool r_flags = false, r_off = false, r_stale = false, r_hs = false, r_attr = false;
+    bool r_flags = cmp_reported & 1, r_off = cmp_reported & 2, r_stale = cmp_reported & 4, r_hs = cmp_reported & 8, r_attr = cmp_reported & 16;
     for (size_t i = 0; i < a->n; i++) {
         struct tsl_rec *x = &a->recs[i], *y = &b->recs[i];
         if (x->size != y->size || memcmp(x->data, y->data, x->size))
@@ -850,8 +852,10 @@ static void compare_sinks(const char *codec, struct tsl_sink *a, const char *na,
         if (x->attr_hash != y->attr_hash && !r_attr) {
             r_attr = true;
             vh_violation_noabort(KEY("attributes"), "access unit %zu: other attributes differ between cuttings '%s' and '%s'", i, na, nb);
+            if (x->attr_txt && y->attr_txt) fprintf(stderr, "  attrs %s: %s\n  attrs %s: %s\n", na, x->attr_txt, nb, y->attr_txt);
         }
     }
+    cmp_reported = (unsigned)(r_flags | r_off << 1 | r_stale << 2 | r_hs << 3 | r_attr << 4);
 #undef KEY
 }
 
@@ -917,6 +921,9 @@ static void case_framer(struct vh_rng *r, bool h265, bool sc3_start)
           tsl_hex(in->p, in->n < 12 ? in->n : 12, 12), in->n >= 4 ? tsl_hex(in->p + in->n - 4, 4, 4) : "");
 
     int ncut = 4 + vh_below(r, 5);
+    bool conformant = clean || nrep > 0;
+    cmp_reported = 0;
+    bool any_stale = false;
     struct tsl_sink *first = NULL;
     enum tsl_cut_style first_style = TSL_CUT_WHOLE;
     for (int k = 0; k < ncut; k++) {
@@ -925,8 +932,10 @@ static void case_framer(struct vh_rng *r, bool h265, bool sc3_start)
         if (k == 1 && in->n > 4000) style = TSL_CUT_TINY;
         struct tsl_sink *s = run_framer(r, h265, in->p, in->n, style, UREF_H26X_ENCAPS_ANNEXB, false);
         vh_count_dyn("framer.cut.%s", tsl_cut_name(style));
+        for (size_t i = 0; i < s->n && !any_stale; i++)
+            if (has_stale_offsets(&s->recs[i], real_offsets(&s->recs[i], NULL, NULL))) any_stale = true;
         if (!first) { first = s; first_style = style; continue; }
-        compare_sinks(codec, first, tsl_cut_name(first_style), s, tsl_cut_name(style), in->n);
+        compare_sinks(codec, conformant, first, tsl_cut_name(first_style), s, tsl_cut_name(style), in->n);
         vh_count_dyn("framer.%s.cuttings_compared", codec);
     }
     /* containment */
@@ -947,7 +956,7 @@ static void case_framer(struct vh_rng *r, bool h265, bool sc3_start)
         struct tsl_rec *o = &first->recs[i];
         bool ok; int want;
         int nr = real_offsets(o, &ok, &want);
-        if (!ok) {
+        if (!ok && conformant) {
             char la[240];
             offsets_str(o, la, sizeof(la));
             snprintf(key, sizeof(key), "c17:%s:nal-offsets", codec);
@@ -983,7 +992,13 @@ static void case_framer(struct vh_rng *r, bool h265, bool sc3_start)
         }
     }
     /* other output encapsulations: payloads and order are kept */
-    if (vh_chance(r, 1, 3) && first->n) {
+    bool try_encaps = first->n && vh_chance(r, 1, 3);
+    if (try_encaps && any_stale) {
+        /* upipe_h26xf_convert_frame would walk NAL offsets already known to
+         * be wrong (reported above under ...:stale-nal-offsets) and may abort
+         * on its assertion: the dependent check is skipped, not the finding */
+        vh_count_dyn("framer.%s.output_encaps_skipped_because_of_stale_offsets", codec);
+    } else if (try_encaps) {
         enum uref_h26x_encaps oe = vh_chance(r, 1, 2) ? UREF_H26X_ENCAPS_LENGTH4 : UREF_H26X_ENCAPS_NALU;
         struct tsl_sink *s = run_framer(r, h265, in->p, in->n, (enum tsl_cut_style)vh_below(r, TSL_CUT_NB), oe, false);
         if (s->n != first->n) {
